@@ -437,6 +437,7 @@ pub struct RunStats {
     pub unwind_at_debug_fmt: u64,
     pub bursts: u64,
     pub burst_calls: u64,
+    pub lock_handovers: u64,
 }
 
 pub struct RunReport {
@@ -807,6 +808,7 @@ pub fn run_scenario(sc: &Scenario, opts: &RunOpts) -> RunReport {
             .stack_size(4 << 20)
             .spawn(move || {
                 ctx::install(tid, Some(sched.clone()), plan);
+                sched.register(tid);
                 sched.wait_turn(tid);
                 let mut cs = ClientState::new();
                 let mut recs = Vec::new();
@@ -857,6 +859,7 @@ pub fn run_scenario(sc: &Scenario, opts: &RunOpts) -> RunReport {
     let ss = sched.summary();
     stats.switches = ss.switches;
     stats.offers = ss.offers;
+    stats.lock_handovers = ss.lock_handovers;
     stats.restarts_published = envs.iter().map(|e| *e.restarts_published.lock().unwrap()).sum();
 
     // ---- oracle -----------------------------------------------------------------
